@@ -53,6 +53,9 @@ type env struct {
 	dir     string
 	ldb     dbm.DB
 	m       *dbm.MVCCHelper
+	mi      *dbm.MVCCIter
+	del0    bool // an idel of version 0 succeeded in this episode
+	itaint  bool // an MVCCIter predicate failed in this episode: its reference no longer follows
 	// reference
 	ref     map[string]map[int64][]byte // key -> version -> value (live writes)
 	wrote   map[int64][]string          // version -> keys written by the add of that version
@@ -64,6 +67,9 @@ type env struct {
 }
 
 var e = &env{}
+
+// result of the last add / del style operation (the generator stops a chain whose removal failed)
+var lastRes string
 
 func tmpBase() string {
 	if d := os.Getenv("VERIF_TMP"); d != "" {
@@ -106,6 +112,9 @@ func (e *env) reset(backend string) string {
 		return "bad-op"
 	}
 	e.m = dbm.NewMVCC(e.ldb)
+	e.mi = dbm.NewMVCCIter(e.ldb)
+	e.del0 = false
+	e.itaint = false
 	e.ref = map[string]map[int64][]byte{}
 	e.wrote = map[int64][]string{}
 	e.reads = map[string]string{}
@@ -181,11 +190,15 @@ func (e *env) apply(list []*types.KeyValue, allDelete bool) error {
 	return batch.Write()
 }
 
-func (e *env) opAdd(line string, ver int64, hash, prev []byte, kvs []*types.KeyValue) {
+func (e *env) opAdd(line string, ver int64, hash, prev []byte, kvs []*types.KeyValue, iter bool) {
 	var list []*types.KeyValue
 	res := gen.Guard(func() string {
 		var err error
-		list, err = e.m.AddMVCC(kvs, hash, prev, ver)
+		if iter {
+			list, err = e.mi.AddMVCC(kvs, hash, prev, ver)
+		} else {
+			list, err = e.m.AddMVCC(kvs, hash, prev, ver)
+		}
 		return errName(err)
 	})
 	if res == "ok" {
@@ -215,22 +228,43 @@ func (e *env) opAdd(line string, ver int64, hash, prev []byte, kvs []*types.KeyV
 	e.hashVer[string(hash)] = ver
 }
 
-func (e *env) opDel(line string, ver int64, hash []byte) {
+func (e *env) opDel(line string, ver int64, hash []byte, iter bool) {
 	var list []*types.KeyValue
 	res := gen.Guard(func() string {
 		var err error
-		list, err = e.m.DelMVCC(hash, ver, true)
+		if iter {
+			list, err = e.mi.DelMVCC(hash, ver, true)
+		} else {
+			list, err = e.m.DelMVCC(hash, ver, true)
+		}
 		return errName(err)
 	})
 	if res == "ok" {
-		if err := e.apply(list, true); err != nil {
+		if err := e.apply(list, false); err != nil {
 			res = "err:" + err.Error()
 		}
 	}
 	out.Op(line, res)
+	lastRes = res
 	out.Stat("del_"+statName(res), 1)
+	if iter && res == "version" && !e.itaint {
+		e.itaint = true
+		// MVCCIter.DelMVCC restores the "last" records with GetV(key, version-1)
+		shape := "no-key-extends-k-dot"
+		for _, k := range e.wrote[ver] {
+			for k2 := range e.ref {
+				if len(e.ref[k2]) > 0 && strings.HasPrefix(k2, k+".") {
+					shape = "another-key-extends-k-dot"
+				}
+			}
+		}
+		out.Pred("C09|MVCCIter.DelMVCC|version-error-while-restoring-last|"+shape, line+" keys="+e.keyList())
+	}
 	if res != "ok" {
 		return
+	}
+	if iter && ver == 0 {
+		e.del0 = true
 	}
 	e.mutate()
 	for _, k := range e.wrote[ver] {
@@ -432,6 +466,94 @@ func (e *env) opTrash(line string, cut int64) {
 	}
 }
 
+// ilist: the "last" records through MVCCIter.Iterator; predicate: one record per key that has a
+// live version, holding the value of its newest version.
+func (e *env) opIList(line string) {
+	got := map[string][]byte{}
+	res := gen.Guard(func() string {
+		var sb strings.Builder
+		it := e.mi.Iterator(nil, nil, false)
+		defer it.Close()
+		n := 0
+		for it.Rewind(); it.Valid(); it.Next() {
+			if n > 0 {
+				sb.WriteByte(',')
+			}
+			sb.WriteString(hx(it.Key()))
+			sb.WriteByte('=')
+			sb.WriteString(hx(it.Value()))
+			got[string(it.Key())] = append([]byte{}, it.Value()...)
+			n++
+		}
+		if n == 0 {
+			return "-"
+		}
+		return sb.String()
+	})
+	out.Op(line, res)
+	out.Stat("ilist", 1)
+	if e.itaint {
+		return
+	}
+	keys := map[string]bool{}
+	for k := range got {
+		keys[k] = true
+	}
+	for k, m := range e.ref {
+		if len(m) > 0 {
+			keys[k] = true
+		}
+	}
+	var order []string
+	for k := range keys {
+		order = append(order, k)
+	}
+	sort.Strings(order)
+	for _, k := range order {
+		newest := int64(-1)
+		for v := range e.ref[k] {
+			if v > newest {
+				newest = v
+			}
+		}
+		g, present := got[k]
+		shape := "no-key-extends-k-dot"
+		for k2 := range e.ref {
+			if len(e.ref[k2]) > 0 && strings.HasPrefix(k2, k+".") {
+				shape = "another-key-extends-k-dot"
+			}
+		}
+		detail := fmt.Sprintf("%s key=%q got=%s present=%v newest=%d keys=%s", line, k, hx(g), present, newest, e.keyList())
+		kind := ""
+		switch {
+		case newest < 0 && present:
+			kind = "last-record-of-a-key-without-versions"
+		case newest >= 0 && !present:
+			kind = "last-record-missing"
+		case newest >= 0 && !bytes.Equal(g, e.ref[k][newest]):
+			kind = "last-record-not-newest"
+			if e.foreign(k, g) {
+				kind = "last-record-holds-value-of-a-different-key"
+			}
+		}
+		if kind == "" {
+			continue
+		}
+		e.itaint = true
+		switch {
+		case shape == "another-key-extends-k-dot":
+			// DelMVCC restored the record from GetV(key, version-1), which misreads under this shape
+			out.Pred("C09|MVCCIter.Iterator|last-record-wrong|another-key-extends-k-dot", kind+" "+detail)
+		case e.del0:
+			out.Pred("C09|MVCCIter.Iterator|"+kind+"|after-removing-version-0", detail)
+		default:
+			out.Pred("C09|MVCCIter.Iterator|"+kind+"|plain-history", detail)
+		}
+		return
+	}
+	out.Stat("ilist_checked", 1)
+}
+
 func (e *env) opMaxV(line string) {
 	res := gen.Guard(func() string {
 		v, err := e.m.GetMaxVersion()
@@ -528,7 +650,7 @@ func exec(line string) {
 			return
 		}
 		out.Op(line, e.reset(f[1]))
-	case "add":
+	case "add", "iadd":
 		if len(f) != 5 {
 			bad()
 			return
@@ -544,8 +666,14 @@ func exec(line string) {
 		if f[3] == "-" {
 			prev = nil
 		}
-		e.opAdd(line, ver, hash, prev, kvs)
-	case "del":
+		e.opAdd(line, ver, hash, prev, kvs, f[0] == "iadd")
+	case "ilist":
+		if len(f) != 1 {
+			bad()
+			return
+		}
+		e.opIList(line)
+	case "del", "idel":
 		if len(f) != 3 {
 			bad()
 			return
@@ -556,7 +684,7 @@ func exec(line string) {
 			bad()
 			return
 		}
-		e.opDel(line, ver, hash)
+		e.opDel(line, ver, hash, f[0] == "idel")
 	case "getv":
 		if len(f) != 3 {
 			bad()
@@ -612,6 +740,7 @@ func exec(line string) {
 // ---------------------------------------------------------------------------------- generator
 
 type chain struct {
+	iter   bool // drive MVCCIter (iadd / idel / ilist) instead of the plain helper
 	r      *gen.Rand
 	keys   [][]byte
 	hashes map[int64][]byte
@@ -702,13 +831,23 @@ func (c *chain) emitAdd(ver int64, tombs bool) {
 	if ver > 0 {
 		prev = hx(c.hashes[ver-1])
 	}
-	exec(fmt.Sprintf("add %d %s %s %s", ver, hx(h), prev, kvs))
+	if c.iter {
+		exec(fmt.Sprintf("iadd %d %s %s %s", ver, hx(h), prev, kvs))
+		exec("ilist")
+	} else {
+		exec(fmt.Sprintf("add %d %s %s %s", ver, hx(h), prev, kvs))
+	}
 	c.hashes[ver] = h
 	c.top = ver
 }
 
 func (c *chain) emitDelTop() {
-	exec(fmt.Sprintf("del %d %s", c.top, hx(c.hashes[c.top])))
+	if c.iter {
+		exec(fmt.Sprintf("idel %d %s", c.top, hx(c.hashes[c.top])))
+		exec("ilist")
+	} else {
+		exec(fmt.Sprintf("del %d %s", c.top, hx(c.hashes[c.top])))
+	}
 	delete(c.hashes, c.top)
 	c.top--
 }
@@ -783,6 +922,46 @@ func episode(r *gen.Rand, backend string, sepFree, tombs bool, cutAt int64) {
 }
 
 // the same history collected at every cut point (fresh database per cut).
+// MVCCIter episodes: versions added and removed from the top, the "last" records checked after
+// every step; sometimes everything down to version 0 is removed.
+func iterEpisode(r *gen.Rand, backend string, sepFree bool) {
+	c := &chain{r: r, hashes: map[int64][]byte{}, top: -1, iter: true}
+	if sepFree {
+		c.keys = genKeysSepFree(r)
+	} else {
+		c.keys = genKeys(r)
+	}
+	exec("reset " + backend)
+	nver := int64(r.Range(2, 6))
+	for c.top+1 < nver {
+		c.emitAdd(c.top+1, false)
+		if r.Chance(1, 3) {
+			c.emitAdd(c.top+1, false)
+			c.emitDelTop()
+			if lastRes != "ok" {
+				out.Stat("iter_episodes_stopped_by_failed_removal", 1)
+				return
+			}
+		}
+	}
+	downTo := int64(r.Range(0, int(c.top)))
+	if r.Chance(1, 6) {
+		downTo = -1
+	}
+	for c.top > downTo {
+		if _, ok := c.hashes[c.top]; !ok {
+			break
+		}
+		c.emitDelTop()
+		if lastRes != "ok" {
+			break // the removal failed (known: ErrVersion while restoring "last"): the chain stops here
+		}
+	}
+	c.readAll(c.top + 1)
+	exec("dump")
+	out.Stat("iter_episodes", 1)
+}
+
 func everyCut(r *gen.Rand, seed uint64, backend string) {
 	probe := gen.New(seed)
 	c0 := &chain{r: probe, hashes: map[int64][]byte{}, top: -1}
@@ -836,5 +1015,12 @@ func main() {
 		everyCut(r, r.U64(), "mem")
 	}
 	stateDBRuns(r, gen.Scale(20, 400))
+	for i := 0; i < gen.Scale(80, 2000); i++ {
+		backend := "mem"
+		if i%4 == 0 {
+			backend = "level"
+		}
+		iterEpisode(r, backend, i%3 == 0)
+	}
 	out.Sample("keys of one episode: " + fmt.Sprintf("%q", genKeys(gen.New(gen.Seed()))))
 }
